@@ -13,6 +13,7 @@ import random
 import shutil
 import tempfile
 import warnings
+import time
 import traceback
 
 from bounded.common import Run
@@ -37,7 +38,18 @@ R = Run('MOF text families through the real PLY driver: string/char16 escapes (e
         'soup/skeletons/characters/splices (quick 1500, thorough 120000); a scripted repository rejecting 8 '
         'operations x call 1/2/all x 26 status codes x fresh/recompile/forced; the mock WBEM server connected in 3 '
         'ways; 19x19 pairs of failures followed by a valid file; after failures the same MOFCompiler must compile a '
-        'probe correctly and report a later error at the right place')
+        'probe correctly and report a later error at the right place; retry after fix on one reused MOFCompiler '
+        '(MOFWBEMConnection, scripted repository, mock server direct and behind MOFWBEMConnection): 18 dependency '
+        'failures (missing superclass / reference class of a property or parameter / EmbeddedInstance class / class '
+        'inside an embedded value / qualifier declarations / class of an instance / include file / dependency, '
+        'reference, instance-class and qualifier files that fail themselves / undefined alias / namespace pragma to '
+        'a missing namespace) and one-time rejections of CreateClass, CreateInstance, SetQualifier (thorough also '
+        'GetClass, EnumerateQualifiers) at call 1..2 (thorough 1..3) with 4 (thorough 8) status codes; fix by '
+        'compiling the missing piece, by a file on the search path, directly in the repository, by adding the '
+        'namespace or by accepting; then the same MOF, another MOF that uses the missing names, or a second different '
+        'failure before the fix; the failing MOF as string, file, include at depth 1..2 or search-path dependency at '
+        'depth 1..2; pairs of failures in two namespaces; ns=None; the repository compared with a compiler that '
+        'never saw a failure (quick: a rotating 1/17 of the product beyond plain string retries)')
 
 DEBUG = bool(os.environ.get('C09_DEBUG'))
 QUICK = R.tier == 'quick'
@@ -1930,10 +1942,6 @@ def rx_handle(env):
     return env.comp.handle
 
 
-def rx_compiler(env):
-    return env.comp.inner if env.kind.startswith('faked') else env.comp
-
-
 _QDECLS = {}
 
 
@@ -2091,7 +2099,7 @@ class RetryBench:
         self.env = Env(kind, search_paths=[self.root])
         self.clean = None
         self.n = 0
-        self.fresh_every = 24 if QUICK else 1000000
+        self.fresh_every = 24 if QUICK else 16
         self.stats = {}
 
     def reference_env(self, fresh):
@@ -2375,7 +2383,6 @@ def f_retry():
     else:
         rejects = rx_reject_scenarios(RX_REJECT_OPS + RX_REJECT_MORE, (1, 2, 3), RX_REJECT_CODES)
     n = 0
-    import time
     for ki, kindname in enumerate(kinds):
         t0 = time.time()
         bench = RetryBench(kindname)
@@ -2391,6 +2398,8 @@ def f_retry():
                             base = mode == 'string' and variant == 'retry' and (ki < 2 or fi == 0)
                             if not base and (si + fi * 5 + mi * 3 + vi * 7 + ki * 11) % 17:
                                 continue
+                        elif ki >= 2 and not (mode == 'string' and variant == 'retry') and n % 2:
+                            continue                # the mock server is slow: half of the product
                         if variant != 'two':
                             others = [None]
                         elif QUICK:
@@ -2406,17 +2415,17 @@ def f_retry():
                     n += 1
                     if QUICK and (ri * 5 + mi * 3 + vi + ki * 7) % (5 if kindname == 'script' else 16):
                         continue
-                    if not QUICK and mode != 'string' and (ri + mi + vi) % 2:
+                    if not QUICK and (mode != 'string' or ki >= 2) and (ri + mi + vi) % 2:
                         continue
                     rx_scenario(bench, sc, 0, mode, variant, other=n if variant == 'two' else None)
         dbg('retry', kindname, bench.n, 'scenarios', '%.1fs' % (time.time() - t0))
         simple = [s for s in RX_SCENARIOS if not s['ns2']]
         for ai, sa in enumerate(simple):
             for bi, sb in enumerate(simple):
-                if ai == bi or (QUICK and (ai * 3 + bi + ki * 5) % 19):
+                if ai == bi or (QUICK and (ai * 3 + bi + ki * 5) % 19) or (not QUICK and ki >= 2 and (ai + bi) % 2):
                     continue
                 n += 1
-                rx_pair(bench, sa, sb, fresh=(n % (24 if QUICK else 4) == 0))
+                rx_pair(bench, sa, sb, fresh=(n % (24 if QUICK else 16) == 0))
         dbg('retry', kindname, bench.n, 'scenarios', '%.1fs' % (time.time() - t0), sorted(bench.stats.items()))
         # ns=None: the default namespace of the repository (one more reused compiler, a fresh reference each time)
         bench = RetryBench(kindname)
@@ -2424,7 +2433,7 @@ def f_retry():
             for fi in range(len(sc['fixes'])):
                 for vi, variant in enumerate(('retry', 'other', 'two')):
                     n += 1
-                    if QUICK and (si * 3 + fi + vi * 5 + ki * 2) % 17:
+                    if (si * 3 + fi + vi * 5 + ki * 2) % (17 if QUICK else 3):
                         continue
                     # a default namespace that has no qualifier declarations yet: a new compiler and repository
                     b = RetryBench(kindname) if 'qualifier' in sc['name'] else bench
@@ -2453,7 +2462,6 @@ FAMILIES = [
 
 
 def main():
-    import time
     only = set(filter(None, os.environ.get('C09_ONLY', '').split(',')))
     try:
         for name, f in FAMILIES:
